@@ -187,7 +187,7 @@ def main(tier, replay_file=None):
                                "on one terminal",
                     cross_process="2 (3) processes x 1-2 exchanges, scheduling "
                                   "point at every system call, <= 2 (3) "
-                                  "preemptions, lock file absent or present "
+                                  "preemptions (thorough: 3 processes with 1), lock file absent or present "
                                   "with counter 0 / 5",
                     crash="thorough: one process may die at any system call",
                     outside="more processes / preemptions; NFS-like lock "
@@ -197,7 +197,7 @@ def main(tier, replay_file=None):
                "CoE server model for the in-process part"])
     items = [("in", 2), ("x", 2, 1, 2, False), ("x", 2, 2, 1, False)]
     if tier != "quick":
-        items += [("in", 3), ("x", 3, 1, 2, False), ("x", 2, 2, 3, False),
+        items += [("in", 3), ("x", 3, 1, 1, False), ("x", 2, 2, 2, False),
                   ("x", 2, 1, 2, True)]
     for res in common.pmap(worker, items):
         ck.add(res)
